@@ -11,6 +11,7 @@ import (
 
 	"github.com/btcsuite/btcd/btcutil"
 	"github.com/btcsuite/btcd/btcutil/hdkeychain"
+	"github.com/btcsuite/btcd/txscript"
 	"github.com/btcsuite/btcwallet/waddrmgr"
 	"github.com/btcsuite/btcwallet/walletdb"
 
@@ -292,6 +293,29 @@ func (w *awWorld) apply(st *awStep, a *awArgs, si int) (string, error) {
 			if addr.String() != want.String() {
 				w.add("issue", fmt.Sprintf("address issued for (%s, account %d, branch %d): expected index %d", a.S, a.A, a.B, a.First+k),
 					addr.String(), want.String())
+				continue
+			}
+			// the BIP32 path the wallet reports for the address (PSBT derivation info) leads to its public key:
+			// purpose' / coin' / account element / branch / index, where the account element of an imported
+			// account is the child number of the imported key, not the number the wallet files it under
+			script, _ := txscript.PayToAddrScript(addr)
+			di, derr := e.w.FetchDerivationInfo(script)
+			w.n++
+			if derr != nil {
+				w.add("issue", fmt.Sprintf("FetchDerivationInfo of the address issued for (%s,%d,%d,%d)", a.S, a.A, a.B, a.First+k), derr.Error(), "ok")
+				continue
+			}
+			sc := oracle.Scopes[a.S]
+			acctElem := hdkeychain.HardenedKeyStart + uint32(a.A)
+			fp := uint32(0)
+			if w.kinds[fmt.Sprintf("%s/%d", a.S, a.A)] == "xpub" {
+				acctElem = w.xpubs[fmt.Sprintf("%s/%d", a.S, a.A)].ChildIndex()
+				fp = 0x0a0b0c0d
+			}
+			wantPath := []uint32{hdkeychain.HardenedKeyStart + sc.Purpose, hdkeychain.HardenedKeyStart + sc.Coin, acctElem, uint32(a.B), uint32(a.First + k)}
+			if fmt.Sprint(di.Bip32Path) != fmt.Sprint(wantPath) || di.MasterKeyFingerprint != fp {
+				w.add("issue", fmt.Sprintf("derivation path reported for the address issued for (%s,%d,%d,%d)", a.S, a.A, a.B, a.First+k),
+					fmt.Sprintf("%v fingerprint %08x", di.Bip32Path, di.MasterKeyFingerprint), fmt.Sprintf("%v fingerprint %08x", wantPath, fp))
 			}
 		}
 		return "ok", nil
